@@ -10,6 +10,16 @@
 (* call; several callers at one instant are several actions without an     *)
 (* Advance in between, in any order.                                       *)
 (* Used by C12; KeyId / key validity are shared with NtsCookies (C11).     *)
+(*                                                                         *)
+(* The cookie as the carrier of the identifier (net/ntske/cookies.go,      *)
+(* core/server): a cookie sealed under the key handed out by Current()     *)
+(* carries uint16(key.ID) (EncryptWithNonce); the listeners open it with   *)
+(* provider.Get(int(cookie.ID)) and Decrypt(key.Value).  The environment   *)
+(* holds the cookies (`cookies`) and presents them again (Open).           *)
+(* The randomness source (crypto/rand.Reader) is part of the environment:  *)
+(* `draw` is the class of the leading bytes of what this provider instance *)
+(* reads from it.  Nothing in provider.go depends on those bytes except    *)
+(* the key values, which stay distinct.                                    *)
 (***************************************************************************)
 EXTENDS Integers, FiniteSets, TLC
 
@@ -27,12 +37,23 @@ VARIABLES
   generatedAt,  \* Provider.generatedAt
   ret,          \* what the last call returned (NoRet after NewProvider / a clock step)
   issued,       \* history: id |-> [t, nb, na, val] of the latest Current() that handed out id
-  seen          \* history: every key ever returned, as [id, nb, na, val]
+  seen,         \* history: every key ever returned, as [id, nb, na, val]
+  cookies,      \* environment: carried id |-> [t, nb, na, val] of the latest cookie issued carrying it
+  draw          \* environment: class of the leading bytes this instance reads from rand.Reader
 
 impl == <<now, keys, currentID, generatedAt>>
-vars == <<now, keys, currentID, generatedAt, ret, issued, seen>>
+vars == <<now, keys, currentID, generatedAt, ret, issued, seen, cookies, draw>>
 
-NoRet == [op |-> "none", arg |-> 0, t |-> 0, ok |-> FALSE, id |-> 0, nb |-> 0, na |-> 0, val |-> 0]
+NoRet == [op |-> "none", arg |-> 0, t |-> 0, ok |-> FALSE, id |-> 0, nb |-> 0, na |-> 0, val |-> 0, cid |-> 0]
+
+\* leading bytes of a read from rand.Reader: 00 00 .., ff ff .., ff fe .., or the real source
+Draws == {"zero", "ones", "fffe", "real"}
+
+\* the identifier as the cookie carries it: EncryptWithNonce stores uint16(keyid) ...
+IdSpace == 65536
+CookieId(id) == id % IdSpace
+\* ... and as the listeners present it to the provider: Get(int(encryptedCookie.ID))
+LookupId(cid) == cid
 
 \* Key.IsValidAt: !(t.Before(NotBefore) || t.After(NotAfter)) - inclusive at both ends
 IsValidAt(k, t) == ~(t < k.nb \/ t > k.na)
@@ -58,7 +79,9 @@ MustRenew == ~ValidNow(currentID) \/ generatedAt + R < now
 RetOf(op, arg, ok, id, k) ==
   [op |-> op, arg |-> arg, t |-> now, ok |-> ok,
    id |-> IF ok THEN id ELSE 0, nb |-> IF ok THEN k.nb ELSE 0,
-   na |-> IF ok THEN k.na ELSE 0, val |-> IF ok THEN k.val ELSE 0]
+   na |-> IF ok THEN k.na ELSE 0, val |-> IF ok THEN k.val ELSE 0,
+   \* cur: the identifier carried by a cookie sealed under the returned key; open: the one presented
+   cid |-> IF op = "cur" /\ ok THEN CookieId(id) ELSE IF op = "open" THEN arg ELSE 0]
 
 \* history bookkeeping (not part of the implementation state)
 KeyOf(r) == [id |-> r.id, nb |-> r.nb, na |-> r.na, val |-> r.val]
@@ -68,6 +91,12 @@ IssuedAfter(f, r) ==
   THEN [i \in DOMAIN f \cup {r.id} |->
           IF i = r.id THEN [t |-> r.t, nb |-> r.nb, na |-> r.na, val |-> r.val] ELSE f[i]]
   ELSE f
+\* the servers seal every new cookie under what Current() has just returned
+CookiesAfter(c, r) ==
+  IF r.op = "cur" /\ r.ok
+  THEN [i \in DOMAIN c \cup {r.cid} |->
+          IF i = r.cid THEN [t |-> r.t, nb |-> r.nb, na |-> r.na, val |-> r.val] ELSE c[i]]
+  ELSE c
 
 (***************************************************************************)
 (* Actions                                                                 *)
@@ -81,6 +110,8 @@ Init ==
   /\ ret = NoRet
   /\ issued = << >>
   /\ seen = {}
+  /\ cookies = << >>
+  /\ draw \in Draws
 
 \* the (virtual) clock moves; nothing else happens
 Advance(d) ==
@@ -88,7 +119,7 @@ Advance(d) ==
   /\ now + d <= Horizon
   /\ now' = now + d
   /\ ret' = NoRet
-  /\ UNCHANGED <<keys, currentID, generatedAt, issued, seen>>
+  /\ UNCHANGED <<keys, currentID, generatedAt, issued, seen, cookies, draw>>
 
 \* Provider.Current()
 Current ==
@@ -100,7 +131,8 @@ Current ==
   /\ ret' = RetOf("cur", 0, TRUE, currentID', keys'[currentID'])
   /\ issued' = IssuedAfter(issued, ret')
   /\ seen' = SeenAfter(seen, ret')
-  /\ UNCHANGED now
+  /\ cookies' = CookiesAfter(cookies, ret')
+  /\ UNCHANGED <<now, draw>>
 
 \* Provider.Get(id): no purge, no renewal
 Get(id) ==
@@ -108,7 +140,19 @@ Get(id) ==
             ELSE RetOf("get", id, FALSE, 0, NoRet)
   /\ issued' = IssuedAfter(issued, ret')
   /\ seen' = SeenAfter(seen, ret')
-  /\ UNCHANGED <<now, keys, currentID, generatedAt>>
+  /\ UNCHANGED <<now, keys, currentID, generatedAt, cookies, draw>>
+
+\* a listener receives the cookie carrying c (the latest one issued with it):
+\* Decode, provider.Get(int(cookie.ID)), Decrypt with the key found - which
+\* succeeds only under the key value the cookie was sealed with
+Open(c) ==
+  /\ c \in DOMAIN cookies
+  /\ LET k == LookupId(c) IN
+       ret' = IF ValidNow(k) /\ keys[k].val = cookies[c].val
+              THEN RetOf("open", c, TRUE, k, keys[k])
+              ELSE RetOf("open", c, FALSE, 0, NoRet)
+  /\ seen' = SeenAfter(seen, ret')
+  /\ UNCHANGED <<now, keys, currentID, generatedAt, issued, cookies, draw>>
 
 \* identifiers a caller may present: everything ever generated, one that was
 \* never generated (0) and the one that will be generated next
@@ -118,6 +162,7 @@ Next ==
   \/ \E d \in Gaps : Advance(d)
   \/ Current
   \/ \E id \in ProbeIds : Get(id)
+  \/ \E c \in DOMAIN cookies : Open(c)
 
 Spec == Init /\ [][Next]_vars
 
@@ -135,6 +180,9 @@ TypeOK ==
 CurrentPresent == Present(currentID) /\ keys[currentID].nb = generatedAt
 \* identifiers are handed out in strictly increasing order (stronger than the
 \* property's "never repeat"; the monitor only uses IdsUnique below)
+\* the carrier is not exhausted within the horizon (assumption of the cookie
+\* clause: fewer than 2^16 key generations; identifiers start at 1)
+CarrierFits == currentID < IdSpace /\ \A c \in DOMAIN cookies : c \in 1 .. currentID
 IdsIncreasing == [][currentID' >= currentID /\
                     \A i \in DOMAIN keys' \ DOMAIN keys : i > currentID]_vars
 
@@ -164,6 +212,17 @@ CookieLifetimeFor(r, f) ==
             (r.ok /\ r.id = r.arg /\ r.nb = i.nb /\ r.na = i.na /\ r.val = i.val)
       /\ r.t > i.nb + 3 * Day => ~r.ok
 CookieLifetime == CookieLifetimeFor(ret, issued)
+\* ... judged on the cookie as carried: the cookie issued at instant i.t under
+\* the key handed out then opens (the listener's look-up answers, with the key
+\* it was sealed under) throughout [i.t, i.t + 2 days], and never later than
+\* three days after that key was generated
+CookieUsableFor(r, c) ==
+  (r.op = "open" /\ r.arg \in DOMAIN c) =>
+    LET i == c[r.arg] IN
+      /\ (i.t <= r.t /\ r.t <= i.t + 2 * Day) =>
+            (r.ok /\ r.nb = i.nb /\ r.na = i.na /\ r.val = i.val)
+      /\ r.t > i.nb + 3 * Day => ~r.ok
+CookieUsable == CookieUsableFor(ret, cookies)
 
 \* The key-exchange server and the listeners seal every new cookie with the key
 \* "handed out for sealing new cookies" at that instant.  Seen from outside (a
